@@ -20,7 +20,7 @@ import json
 import numpy as np
 from hypothesis import strategies as st
 
-from EasyFEA import ElemType, Mesh, Mesher
+from EasyFEA import ElemType, MatrixType, Mesh, Mesher
 from EasyFEA.FEM._group_elem import GroupElemFactory
 from EasyFEA.Geoms import Line, Point, Points
 
@@ -249,6 +249,27 @@ def build(recipe: dict) -> Mesh:
 
 def main_groups(mesh: Mesh):
     return mesh.Get_list_groupElem(mesh.dim)
+
+
+def warm_queries(mesh: Mesh, k: int) -> None:
+    """read-only public queries made on a mesh before it is used (k selects which, 0 = none): whatever they leave behind in the
+    library (cached Jacobians, mappings, ...) must not change anything that is computed afterwards"""
+    k = int(k or 0)
+    if not k:
+        return
+    X = np.asarray(mesh.coord, float)
+    groups = main_groups(mesh)
+    if k & 1:
+        # a nodal field evaluated at interior points (centroids of the first elements), the first thing a user plotting along a line does
+        pts = np.array([X[np.asarray(g.connect)[e]].mean(axis=0) for g in groups for e in range(min(g.Ne, 3))])
+        mesh.Evaluate_dofsValues_at_coordinates(pts, X[:, 0].copy())
+    if k & 2:
+        _ = mesh.center
+        for g in groups:
+            _ = g.Integrate_e(lambda x, y, z: 1.0 + 0 * x)
+    if k & 4:
+        for g in mesh.Get_list_groupElem(mesh.dim - 1) if mesh.dim > 1 else []:
+            _ = g.Get_normals_e_pg(MatrixType.mass) if g.Ne else None
 
 
 def min_node_spacing(mesh: Mesh) -> float:
